@@ -151,7 +151,7 @@ func (n *GroupByNode) emit(t time.Time) error {
 			// Update SizeHint since we know the final point count
 			group.Begin().SetSizeHint(len(group.Points()))
 			// Sort points since we didn't guarantee insertion order was sorted
-			sort.Sort(edge.BatchPointMessages(group.Points()))
+			sort.Stable(edge.BatchPointMessages(group.Points()))
 			// Send group batch to all children
 			n.timer.Pause()
 			if err := edge.Forward(n.outs, group); err != nil {
